@@ -4,6 +4,8 @@
 -/
 import BufrModel.Coder.Regs
 import BufrModel.Gen.PyCoder
+import BufrModel.Lemmas.CoderSrc
+set_option linter.unusedSimpArgs false
 namespace Bufr
 open PyGen.coder
 
@@ -27,5 +29,62 @@ theorem C07_src_const_bitmap_states_distinct (a b : BitmapDef) : bitmapDefTag a 
 
 theorem C07_src_const_qa_states_distinct (a b : QaStatus) : qaTag a = qaTag b ↔ a = b := by
   cases a <;> cases b <;> decide
+
+/-! ### the bitmap / back-reference methods of `CoderState` (generated from the source on every check)
+
+  Representation: `Lemmas/CoderSrc.lean` — `Rep φ ps r`: the Python record `ps` stands for the register file `r`. -/
+
+variable {D V : Type}
+
+/-- `mark_back_reference_boundary`: the boundary register becomes the current number of decoded descriptors
+    (what `operatorDescriptor` does for 222000 / 223000 / 224000 / 225000 / 232000 with `s.descs.length`);
+    nothing else changes. -/
+theorem C07_src_mark_back_reference_boundary (φ : D → Elem) (ps : CoderState.Self D V) (r : Regs) (h : Rep φ ps r) :
+    CoderState.mark_back_reference_boundary ps =
+        { ps with back_reference_boundary := (ps.decoded_descriptors.length : Nat) } ∧
+      Rep φ (CoderState.mark_back_reference_boundary ps) { r with backBoundary := ps.decoded_descriptors.length } := by
+  refine ⟨rfl, ?_⟩
+  obtain ⟨hwf, nr, rfl, href⟩ := h
+  refine ⟨?_, nr, ?_, href⟩
+  · simp only [WF, CoderState.mark_back_reference_boundary] at hwf ⊢
+    simp only [Int.ofNat_eq_natCast, Int.natCast_nonneg, and_true]
+    exact ⟨hwf.1, hwf.2.1, hwf.2.2.1, hwf.2.2.2.1, hwf.2.2.2.2.1, hwf.2.2.2.2.2.1, hwf.2.2.2.2.2.2.1,
+      hwf.2.2.2.2.2.2.2.1, hwf.2.2.2.2.2.2.2.2.1⟩
+  · simp [regsOf, CoderState.mark_back_reference_boundary]
+
+example : ∃ (ps : CoderState.Self Nat Nat) (r : Regs), Rep (fun _ => default) ps r :=
+  ⟨_, _, rep_freshOver _ ⟨false, 1, 0, [[]], [[]], [[]], [], [], [], 0, 5, 5, 5, [(1, 1)], [2], 3, ⟨1, 1, 1⟩, 4, 5, 2, some [],
+    some [], 5, true, 7, some [], 3, some []⟩⟩
+
+/-- `cancel_bitmap` (237255 after a bitmap defined for re-use): only `bitmap` is cleared — a register the model
+    does not carry, so the register file represented is unchanged. -/
+theorem C07_src_cancel_bitmap (φ : D → Elem) (ps : CoderState.Self D V) :
+    CoderState.cancel_bitmap ps = { ps with bitmap := none } ∧
+      regsOf φ (CoderState.cancel_bitmap ps) = regsOf φ ps ∧ (WF ps → WF (CoderState.cancel_bitmap ps)) :=
+  ⟨rfl, rfl, fun h => h⟩
+
+/-- `cancel_all_back_references` (235000): the back-referenced descriptors and the bitmapped descriptors are
+    dropped (and `bitmap`), exactly the registers the model's 235 branch clears; the iterator in
+    `next_bitmapped_descriptor` is NOT touched (the model keeps `bmIter` as well). -/
+theorem C07_src_cancel_all_back_references (φ : D → Elem) (ps : CoderState.Self D V) :
+    CoderState.cancel_all_back_references ps =
+        { ps with back_referenced_descriptors := none, bitmap := none, bitmapped_descriptors := none } ∧
+      regsOf φ (CoderState.cancel_all_back_references ps) = { regsOf φ ps with backRefs := none, bitmapped := none } ∧
+      (WF ps → WF (CoderState.cancel_all_back_references ps)) :=
+  ⟨rfl, rfl, fun h => h⟩
+
+/-- `recall_bitmap` (237000): `iter(None)` is a `TypeError` when no bitmap was ever defined (the model: `other`);
+    otherwise the iterator restarts on the bitmapped descriptors (`bmIter := bitmapped`) and the value returned
+    is `bitmap` (discarded by the caller). -/
+theorem C07_src_recall_bitmap (φ : D → Elem) (ps : CoderState.Self D V) :
+    (ps.bitmapped_descriptors = none → CoderState.recall_bitmap ps = .error .typeError) ∧
+    (∀ l, ps.bitmapped_descriptors = some l →
+      CoderState.recall_bitmap ps = .ok ({ ps with next_bitmapped_descriptor := some l }, ps.bitmap) ∧
+      regsOf φ ({ ps with next_bitmapped_descriptor := some l } : CoderState.Self D V) =
+        { regsOf φ ps with bmIter := (regsOf φ ps).bitmapped }) := by
+  refine ⟨fun h => ?_, fun l h => ⟨?_, ?_⟩⟩
+  · simp [CoderState.recall_bitmap, h, Py.iterOpt, bind, Except.bind]
+  · simp [CoderState.recall_bitmap, h, Py.iterOpt, bind, Except.bind, pure, Except.pure]
+  · simp [regsOf, h]
 
 end Bufr
